@@ -18,6 +18,7 @@ Record mcase := {
   mc_nodes_left : Z;
   mc_first_then : option (nat * nat);
   mc_threads : nat;
+  mc_preemptive : bool;          (* the crate was built with the preemptive feature (there is a monitor) *)
   mc_outcome : outcome
 }.
 
@@ -36,10 +37,11 @@ Definition has_ev (f : mev -> bool) (l : list mev) : bool := existsb f l.
 Definition judge (c : mcase) : verdict :=
   if mc_stress c then
     let clean := match mc_outcome c with OClean => true | _ => false end in
-    let racy := Nat.leb 2 (mc_threads c) && race_defect in
+    (* with a monitor: two scheduler threads race with each other, and any scheduler thread with the monitor thread *)
+    let racy := mc_preemptive c && ((Nat.leb 2 (mc_threads c) && race_defect) || scan_race_defect) in
     {| v_corr := racy || clean;
        v_prop := clean;
-       v_tags := (if racy then ["monitor_set_unsynchronised"] else ["single_thread"]) ++ ["stress"]
+       v_tags := (if racy then ["monitor_set_unsynchronised"] else ["control_without_monitor"]) ++ ["stress"]
                  ++ match mc_outcome c with OClean => ["clean"] | OAborted => ["aborted"] | ODiverged => ["diverged"] | OWrong => ["wrong"] end;
        v_note := "" |}
   else if match mc_outcome c with OClean => false | _ => true end then
